@@ -141,6 +141,7 @@ type Engine struct {
 	crashPoints  int
 	hookCheck    bool
 	netUp        bool
+	sleepStacks  []string // call stacks (function names) of every time.Sleep executed on this path
 	rwOwner      map[*value]*value // RWMutex field cell -> struct that holds it
 	pools        map[*value][]value // sync.Pool contents per pool (objects Put and not yet handed out again)
 	netStallNew  bool // new connections start out stalled (peer accepts, never reads)
@@ -206,6 +207,7 @@ func (e *Engine) resetPath() {
 	e.netStallNew = false
 	e.pools = nil
 	e.rwOwner = nil
+	e.sleepStacks = nil
 	e.netConns = nil
 	e.netByPtr = nil
 	e.httpSt = nil
